@@ -353,6 +353,8 @@ pub fn try_build(w: Tmo, c: Tmo, r: Tmo, rt: bool) -> &'static str {
 pub enum Spec {
     Get(Tmo, Tmo, Tmo),
     Ret(u64),
+    /// the object is dropped while its holder is unwinding from a panic
+    RetUnwind(u64),
     Take(u64),
     Resize(usize),
     Close,
@@ -365,6 +367,7 @@ impl Spec {
         match self {
             Spec::Get(w, c, r) => format!("start get {} {} {}", w.ch(), c.ch(), r.ch()),
             Spec::Ret(id) => format!("start ret {}", id),
+            Spec::RetUnwind(id) => format!("start ret {} unwinding", id),
             Spec::Take(id) => format!("start take {}", id),
             Spec::Resize(n) => format!("start resize {}", n),
             Spec::Close => "start close".into(),
@@ -383,6 +386,7 @@ impl Spec {
         Some(match ws {
             ["get", w, c, r] => Spec::Get(Tmo::parse(w)?, Tmo::parse(c)?, Tmo::parse(r)?),
             ["ret", id] => Spec::Ret(id.parse().ok()?),
+            ["ret", id, "unwinding"] => Spec::RetUnwind(id.parse().ok()?),
             ["take", id] => Spec::Take(id.parse().ok()?),
             ["resize", n] => Spec::Resize(n.parse().ok()?),
             ["close"] => Spec::Close,
@@ -591,7 +595,7 @@ impl World {
         let released = self.released.clone();
         let (label, kind) = match spec {
             Spec::Get(w, c, r) => ("get.enter", OpKind::Get(*w, *c, *r)),
-            Spec::Ret(_) => ("ret.users", OpKind::Ret),
+            Spec::Ret(_) | Spec::RetUnwind(_) => ("ret.users", OpKind::Ret),
             Spec::Take(_) => ("take.users", OpKind::Take),
             Spec::Resize(_) => ("resize.check", OpKind::Resize),
             Spec::Close => ("resize.check", OpKind::Close),
@@ -600,7 +604,7 @@ impl World {
         };
         // objects leave the callers' hands when the operation starts
         let obj = match spec {
-            Spec::Ret(id) | Spec::Take(id) => Some(
+            Spec::Ret(id) | Spec::RetUnwind(id) | Spec::Take(id) => Some(
                 self.out
                     .lock()
                     .unwrap()
@@ -687,6 +691,15 @@ impl World {
                         }
                     }
                     Spec::Ret(_) => drop(obj.unwrap()),
+                    Spec::RetUnwind(_) => {
+                        // the holder panics with the object in scope: `Object::drop` runs during
+                        // the unwinding (it must behave like any other return)
+                        let o = obj.unwrap();
+                        let _ = std::panic::catch_unwind(std::panic::AssertUnwindSafe(move || {
+                            let _held = o;
+                            std::panic::panic_any("holder of the object panics");
+                        }));
+                    }
                     Spec::Take(_) => {
                         let mut v = Object::take(obj.unwrap());
                         sched.event(format!("taken({},{})", i, v.id));
